@@ -334,7 +334,7 @@ class Runner:
         return 1 if self.violations else 0
 
     def write_replay(self, f):
-        d = os.path.join(VERIF, "replays", self.pid)
+        d = os.path.join(os.environ.get("VERIF_REPLAY_DIR") or os.path.join(VERIF, "replays"), self.pid)
         os.makedirs(d, exist_ok=True)
         body = {"property": self.pid, "sig": f.sig, "msg": f.msg, "case": f.case, "seed": self.seed, "tier": self.tier}
         name = "%016x.json" % h64(f.case)
@@ -375,11 +375,12 @@ class Runner:
             "wall_s": round(time.time() - self.t0, 2),
             "violations": len(self.violations),
         }
-        os.makedirs(os.path.join(VERIF, "evidence"), exist_ok=True)
-        tmp = os.path.join(VERIF, "evidence", self.pid + ".json.tmp")
+        evdir = os.environ.get("VERIF_EVIDENCE_DIR") or os.path.join(VERIF, "evidence")
+        os.makedirs(evdir, exist_ok=True)
+        tmp = os.path.join(evdir, self.pid + ".json.tmp")
         with open(tmp, "w") as fh:
             json.dump(ev, fh, indent=1, default=repr)
-        os.replace(tmp, os.path.join(VERIF, "evidence", self.pid + ".json"))
+        os.replace(tmp, os.path.join(evdir, self.pid + ".json"))
 
 
 def corpus_cases(pid):
